@@ -23,11 +23,13 @@ struct AnyProvider {
     types: [u16; K_TLV],
     parent: PortIdentity,
     max_seen: [usize; K_TLV],
+    /// number of TLVs this provider is willing to offer (<= K_TLV)
+    limit: usize,
 }
 
 impl ForwardedTLVProvider for AnyProvider {
     fn next_if_smaller(&mut self, max_size: usize) -> Option<ForwardedTLV<'_>> {
-        if self.offered >= K_TLV || !kani::any::<bool>() {
+        if self.offered >= self.limit || !kani::any::<bool>() {
             return None;
         }
         // documented contract: never larger than max_size (a TLV has at least its 4-octet header)
@@ -61,14 +63,9 @@ impl ForwardedTLVProvider for AnyProvider {
 /// (C11); forwards only TLVs whose sender is the parent, drops PATH_TRACE when the path trace option is on;
 /// 64 + sum of sizes <= 1024; declared length == emitted length; never panics for any conforming provider
 /// (C03/C15); announce timer re-armed (C12); exactly one general send, no event send (C10).
-#[kani::proof]
-#[kani::unwind(34)]
-#[kani::stub(PortActionIterator::from, PortActionIterator::verif_recording_from)]
-#[kani::stub(Message::serialize, Message::verif_recording_serialize)]
-#[kani::stub(TlvSetBuilder::add, TlvSetBuilder::verif_contract_add)]
-#[kani::stub(crate::time::Interval::as_core_duration, stub_as_core_duration)]
-fn c15_send_announce_with_any_provider() {
+fn announce_tx(limit: usize, allow_path_trace: bool) -> (usize, usize, bool, usize) {
     let mut inst0 = any_instance_state(2);
+    if !allow_path_trace { inst0.path_trace_ds.enable = false; }
     let path_enable = inst0.path_trace_ds.enable;
     let path_len = inst0.path_trace_ds.list.len();
     let lock = ChkLock::new(inst0);
@@ -78,7 +75,7 @@ fn c15_send_announce_with_any_provider() {
     let own = port.port_identity;
     let mut provider = AnyProvider {
         buf: [0x5a; MAX_DATA_LEN], offered: 0, sizes: [0; K_TLV], from_parent: [false; K_TLV], types: [0; K_TLV],
-        parent: inst.parent_ds.parent_port_identity, max_seen: [0; K_TLV],
+        parent: inst.parent_ds.parent_port_identity, max_seen: [0; K_TLV], limit,
     };
 
     let actions = run_actions!(port.handle_announce_timer(&mut provider));
@@ -88,7 +85,7 @@ fn c15_send_announce_with_any_provider() {
     if pre.tag != 2 {
         // C08: Announce only by ports in the master state; the provider is not even consulted
         assert!(post == pre && actions.n == 0 && provider.offered == 0);
-        return;
+        return (0, 0, false, 0);
     }
     let id = pre.seq[0];
     let mut want = pre;
@@ -101,7 +98,7 @@ fn c15_send_announce_with_any_provider() {
     assert!(h.sequence_id == id && h.source_port_identity == own);
     assert!(h.sdo_id == inst.default_ds.sdo_id && h.domain_number == inst.default_ds.domain_number);
     // ---- C11: the Announce carries the current data sets ----
-    let a = match body { crate::datastructures::messages::MessageBody::Announce(a) => a, _ => { assert!(false); return; } };
+    let a = match body { crate::datastructures::messages::MessageBody::Announce(a) => a, _ => { assert!(false); return (0, 0, false, 0); } };
     let tp = inst.time_properties_ds;
     assert!(a.current_utc_offset == tp.current_utc_offset.unwrap_or_default());
     assert!(a.grandmaster_priority_1 == inst.parent_ds.grandmaster_priority_1);
@@ -135,7 +132,45 @@ fn c15_send_announce_with_any_provider() {
         i += 1;
     }
     assert!(f.len == 64 + own_path_tlv + forwarded);
-    kani::cover!(provider.offered == 2 && forwarded > 0);
-    kani::cover!(provider.offered >= 1 && provider.sizes[0] == provider.max_seen[0]);
-    kani::cover!(own_path_tlv > 0);
+    (provider.offered, forwarded, provider.offered >= 1 && provider.sizes[0] == provider.max_seen[0], own_path_tlv)
+}
+
+/// quick instance: no forwarded TLVs, path trace off -- the Announce *contents* clause of C11 and the guards
+#[kani::proof]
+#[kani::unwind(34)]
+#[kani::stub(PortActionIterator::from, PortActionIterator::verif_recording_from)]
+#[kani::stub(Message::serialize, Message::verif_recording_serialize)]
+#[kani::stub(TlvSetBuilder::add, TlvSetBuilder::verif_contract_add)]
+#[kani::stub(crate::time::Interval::as_core_duration, stub_as_core_duration)]
+fn c11_send_announce_contents() {
+    let r = announce_tx(0, false);
+    kani::cover!(r.0 == 0);
+}
+
+/// one forwarded TLV, path trace on
+#[kani::proof]
+#[kani::unwind(34)]
+#[kani::stub(PortActionIterator::from, PortActionIterator::verif_recording_from)]
+#[kani::stub(Message::serialize, Message::verif_recording_serialize)]
+#[kani::stub(TlvSetBuilder::add, TlvSetBuilder::verif_contract_add)]
+#[kani::stub(crate::time::Interval::as_core_duration, stub_as_core_duration)]
+fn c15_send_announce_one_tlv() {
+    let r = announce_tx(1, true);
+    kani::cover!(r.0 == 1 && r.1 > 0);
+    kani::cover!(r.2); // a TLV that exactly fills the remaining room
+    kani::cover!(r.3 > 0);
+}
+
+/// BOUND K = 2 forwarded TLVs, path trace on
+#[kani::proof]
+#[kani::unwind(34)]
+#[kani::stub(PortActionIterator::from, PortActionIterator::verif_recording_from)]
+#[kani::stub(Message::serialize, Message::verif_recording_serialize)]
+#[kani::stub(TlvSetBuilder::add, TlvSetBuilder::verif_contract_add)]
+#[kani::stub(crate::time::Interval::as_core_duration, stub_as_core_duration)]
+fn c15_send_announce_with_any_provider() {
+    let r = announce_tx(2, true);
+    kani::cover!(r.0 == 2 && r.1 > 0);
+    kani::cover!(r.2);
+    kani::cover!(r.3 > 0);
 }
